@@ -32,6 +32,9 @@ from ._radial_dist import (
 
 logger = logging.getLogger(__name__)
 
+# numpy 2.x renamed trapz to trapezoid and later removed the old name
+_trapz = np.trapezoid if hasattr(np, "trapezoid") else np.trapz
+
 
 @numba.njit(cache=True)
 def _cubic_spline(x, x1, x2, y1, y2, k1, k2):
@@ -139,10 +142,10 @@ def _adv_rhs(model, _t, y, rates=None):
     shapes = np.exp(-q_T * (phi - phi.min())/kT_T)  # Works for neutrals
 
     # Radial integrals
-    i_rs_re = np.trapz(shapes[:, :ix+1] * r[:ix+1], r[:ix+1])
-    i_rsp_re = np.trapz(shapes[:, :ix+1] * r[:ix+1] * (phi[:ix+1]-phi.min()), r[:ix+1])
-    i_rs_rd = np.trapz(shapes * r, r)
-    i_rrs_rd = np.trapz(shapes * r * r, r)
+    i_rs_re = _trapz(shapes[:, :ix+1] * r[:ix+1], r[:ix+1])
+    i_rsp_re = _trapz(shapes[:, :ix+1] * r[:ix+1] * (phi[:ix+1]-phi.min()), r[:ix+1])
+    i_rs_rd = _trapz(shapes * r, r)
+    i_rrs_rd = _trapz(shapes * r * r, r)
 
     # On axis 3d density
     n3d = n_T / 2 / PI / np.atleast_2d(i_rs_rd).T * np.atleast_2d(shapes[:, 0]).T
@@ -159,11 +162,11 @@ def _adv_rhs(model, _t, y, rates=None):
     v_ra = -phi.min()
 
     # Characteristic beam energies
-    _sc_mean = 2*np.trapz(r[:ix+1]*phi[:ix+1], r[:ix+1])/model.device.r_e**2
+    _sc_mean = 2*_trapz(r[:ix+1]*phi[:ix+1], r[:ix+1])/model.device.r_e**2
     e_kin = model.device.e_kin + _sc_mean
     if not model.options.OVERRIDE_FWHM:
         e_kin_fwhm = 2.355*np.sqrt(
-            2*np.trapz(r[:ix+1]*(phi[:ix+1]-_sc_mean)**2, r[:ix+1])/model.device.r_e**2
+            2*_trapz(r[:ix+1]*(phi[:ix+1]-_sc_mean)**2, r[:ix+1])/model.device.r_e**2
         )
     else:
         e_kin_fwhm = model.device.fwhm
